@@ -222,6 +222,7 @@ class Analysis:
         self.refusal_queries = []    # (inc, what, result, pos)
         self.refusal_io = []         # (inc, op kind, n, pos)
         self.udp = {}; self.udp_sends = []; self.udp_recvs = []
+        self.reopened = {}           # acceptor name -> positions of open() calls on the still open acceptor (outside the statement)
         self.notes = []
 
 
@@ -473,6 +474,7 @@ def _walk(an, impl):
                 if r0 == "ok":
                     a.closes.append(pos)
                     was = a.listening
+                    if a.open: an.reopened.setdefault(name, []).append(pos)
                     a = fresh(a); a.open = True
                     # re-opening an acceptor that was never closed: whether it still listens is not
                     # something the statement speaks about
